@@ -1,9 +1,9 @@
 package harness
 
 import (
-	"verif.local/simrt"
 	"fmt"
 	"math/big"
+	"verif.local/simrt"
 
 	"github.com/bartossh/Computantis/src/spice"
 )
@@ -25,7 +25,9 @@ func c05Pairs() []spice.Melange {
 	return out
 }
 
-func melStr(m spice.Melange) string { return fmt.Sprintf("{%d,%d}", m.Currency, m.SupplementaryCurrency) }
+func melStr(m spice.Melange) string {
+	return fmt.Sprintf("{%d,%d}", m.Currency, m.SupplementaryCurrency)
+}
 
 type c05op struct {
 	Op     string `json:"op"`
